@@ -90,6 +90,54 @@ def saveText (fs : FS) (path : Str) (parts : List (List Str)) (maxR : Nat)
         (st'.fs, if ok' then .ok else .failed)
       else (st.fs, .failed)
 
+
+/-! ### torn writes
+
+A write can also fail AFTER the file has been created (disk full in the middle of `dump`): the part file then exists
+with part of its content. `torn k` says that failing write attempt number `k` leaves such a file behind (here: the
+first half of the text, a decodable file); with `torn = fun _ => false` this is `saveText`. -/
+
+def tryWriteT (wfail torn : Nat → Bool) (st : St) (name : Str) (text : Str) : St × Bool :=
+  if wfail st.w then
+    ({ fs := if torn st.w then st.fs.write name ⟨getCodec name, text.take (text.length / 2)⟩ else st.fs, w := st.w + 1 }, false)
+  else ({ fs := st.fs.write name ⟨getCodec name, text⟩, w := st.w + 1 }, true)
+
+def savePartT (maxR : Nat) (wfail torn : Nat → Bool) (cfail : Nat → Bool) (name : Str) (text : Str) :
+    (fuel : Nat) → (attempt : Nat) → St → St × Bool
+  | 0, _, st => (st, false)
+  | fuel + 1, attempt, st =>
+    let attempt := attempt + 1
+    if cfail (attempt - 1) then
+      if attempt = maxR then (st, false) else savePartT maxR wfail torn cfail name text fuel attempt st
+    else
+      let (st', ok) := tryWriteT wfail torn st name text
+      if ok then (st', true)
+      else if attempt = maxR then (st', false) else savePartT maxR wfail torn cfail name text fuel attempt st'
+
+def savePartsT (maxR : Nat) (wfail torn : Nat → Bool) (cfail : Nat → Nat → Bool) (path suffix : Str) :
+    List (List Str) → Nat → St → St × Bool
+  | [], _, st => (st, true)
+  | p :: ps, i, st =>
+    let (st', ok) := savePartT maxR wfail torn (cfail i) (joinPath path (partName i suffix)) (encodePart p) maxR 0 st
+    if ok then savePartsT maxR wfail torn cfail path suffix ps (i + 1) st' else (st', false)
+
+/-- `saveAsTextFile(path)` under a fault plan with torn writes -/
+def saveTextT (fs : FS) (path : Str) (parts : List (List Str)) (maxR : Nat)
+    (wfail torn : Nat → Bool) (cfail : Nat → Nat → Bool) : FS × SaveResult :=
+  if fs.pathExists path then (fs, .alreadyExists)
+  else match parts with
+    | [p] =>
+      if computeOk maxR (cfail 0) then
+        let (st, ok) := tryWriteT wfail torn ⟨fs, 0⟩ path (encodePart p)
+        (st.fs, if ok then .ok else .failed)
+      else (fs, .failed)
+    | _ =>
+      let (st, ok) := savePartsT maxR wfail torn cfail path (codecSuffix path) parts 0 ⟨fs, 0⟩
+      if ok then
+        let (st', ok') := tryWriteT wfail torn st (joinPath path marker) []
+        (st'.fs, if ok' then .ok else .failed)
+      else (st.fs, .failed)
+
 /-! ### reading a directory back -/
 
 def strLe : Str → Str → Bool
